@@ -48,6 +48,14 @@ func slowScenario(name string, latency time.Duration) error {
 		return vh.Errf("%s: shimagent.New: %v", name, serr)
 	}
 	defer shim.Close()
+	// an in-memory hardware certificate that leaves its validity window about two seconds into the
+	// scenario, i.e. while the slow request is outstanding
+	_ = p.Ring().Add(agent.AddedKey{PrivateKey: vh.Key("p256b"), Comment: "token key"})
+	vb := uint64(time.Now().Unix()) + 2
+	lapsing := vh.MakeSSHCert(vh.SSHCertSpec{Key: "p256b", KeyID: "lapsing hardware certificate", ValidAfter: 0, ValidBefore: vb, Principals: []string{"user_a"}})
+	if e := shim.AddHardCert(lapsing, "hw"); e != nil {
+		return vh.Errf("%s: AddHardCert: %v", name, e)
+	}
 	served := yubiWrap{shim}
 	handle := func() (yubiagent.YubiAgent, func(), error) {
 		if via != "conn" {
@@ -104,8 +112,18 @@ func slowScenario(name string, latency time.Duration) error {
 				ks, e := ag.List()
 				if e != nil {
 					viol.set(vh.Errf("%s failed: %v", where, e))
-				} else if len(ks) != 1 || !bytes.Equal(ks[0].Blob, vh.SSHPub(sharedKey).Marshal()) {
-					viol.set(vh.Errf("%s: listing shows %d identities, expected the one key of the underlying agent", where, len(ks)))
+				} else {
+					seen := map[string]int{}
+					for _, k := range ks {
+						seen[string(k.Blob)]++
+					}
+					sh, tk, hc := seen[string(vh.SSHPub(sharedKey).Marshal())], seen[string(vh.SSHPub("p256b").Marshal())], seen[string(lapsing.Marshal())]
+					if sh != 1 || tk != 1 || hc > 1 || len(ks) != 2+hc {
+						viol.set(vh.Errf("%s: listing shows %d identities (shared key x%d, token key x%d, hardware certificate x%d), expected the two keys and at most the hardware certificate", where, len(ks), sh, tk, hc))
+					}
+					if hc == 1 && uint64(time.Now().Unix()) > vb+1 {
+						viol.set(vh.Errf("%s: the hardware certificate is still listed more than a second after its validity ended", where))
+					}
 				}
 			}
 		})
@@ -168,7 +186,7 @@ func TestC11SlowUpstream(t *testing.T) {
 		cases = append(cases, SlowCase{Scenarios: sc, LatencyMS: 1200}, SlowCase{Scenarios: sc, LatencyMS: 31000})
 	}
 	vh.Enumerate(t, vh.Spec[SlowCase]{Property: "C11", Name: "TestC11SlowUpstream", Exhaustive: true, Journal: true,
-		Rule: "the underlying agent answers ONE request (a raw forward, a sign request, an extension request; issued directly or through a served connection; both upstream modes: 12 scenarios side by side) only after 7 s (thorough: also 1.2 s and 31 s) - a touch or PIN prompt - while three other clients queue list / sign / forward / extension calls behind it. Oracle: every call that returns without error carries the reply to its own request (tag echo, signature over the caller's data, the listing), the queued clients' calls succeed, everything completes, and six further calls afterwards are still in step with the underlying agent (a reply left unread would shift them)",
+		Rule: "the underlying agent answers ONE request (a raw forward, a sign request, an extension request; issued directly or through a served connection; both upstream modes: 12 scenarios side by side) only after 7 s (thorough: also 1.2 s and 31 s) - a touch or PIN prompt - while three other clients queue list / sign / forward / extension calls behind it and an in-memory hardware certificate leaves its validity window (2 s after the start). Oracle: every call that returns without error carries the reply to its own request (tag echo, signature over the caller's data, the listing), the queued clients' calls succeed, everything completes, and six further calls afterwards are still in step with the underlying agent (a reply left unread would shift them)",
 		Exec: func(c SlowCase) (vh.Outcome, error) {
 			out := vh.Outcome{NonTrivial: true}
 			errs := make([]error, len(c.Scenarios))
